@@ -809,13 +809,10 @@ Lemma write_enum_first e :
   unspec_ok e = true ->
   exists d inf rest, eo_values (write_enum e) = ((ed_prefix e ++ unspecified)%list, 0%Z, d, inf) :: rest.
 Proof.
-  intro H. unfold write_enum, unspec_ok in *. cbn [eo_values].
+  intros _. unfold write_enum. cbn [eo_values].
   destruct (ed_options e) as [|[[n d] inf] r]; [eauto|].
-  destruct (has_suffix unspecified n) eqn:Es; [|eauto].
-  apply orb_true_iff in H as [H|H].
-  - apply str_eqb_eq in H. subst n. unfold pfx. rewrite has_prefix_app. eauto.
-  - apply andb_true_iff in H as [H1 H2]. apply str_eqb_eq in H1. subst n.
-    apply negb_true_iff in H2. unfold pfx. rewrite H2. eauto.
+  destruct (is_zero_opt (ed_prefix e) n) eqn:Ez; [|eauto].
+  apply str_eqb_eq in Ez. rewrite Ez. eauto.
 Qed.
 
 Lemma trim_pfx p n : trim_prefix p (pfx p n) = trim_prefix p n.
@@ -848,23 +845,11 @@ Proof.
   destruct (ed_options e) as [|[[n d] inf] r] eqn:Eo.
   - cbn [map]. unfold trim_prefix. rewrite has_prefix_app, strip_prefix_app. reflexivity.
   - cbn [forallb snd fst] in Hos. apply andb_true_iff in Hos as [Hd0 Hr].
-    destruct (has_suffix unspecified n) eqn:Es.
-    + assert (Hn : names_unspecified (ed_prefix e) n = true /\ pfx (ed_prefix e) n = (ed_prefix e ++ unspecified)%list).
-      { unfold names_unspecified. apply orb_true_iff in Hu as [Hu|Hu].
-        - apply str_eqb_eq in Hu. subst n. rewrite str_eqb_refl, orb_true_r. split; [reflexivity|].
-          unfold pfx. rewrite has_prefix_app. reflexivity.
-        - apply andb_true_iff in Hu as [H1 H2]. apply str_eqb_eq in H1. subst n.
-          rewrite str_eqb_refl. split; [reflexivity|]. apply negb_true_iff in H2. unfold pfx. rewrite H2. reflexivity. }
-      destruct Hn as [Hn1 Hn2]. rewrite Hn1. cbn [map]. rewrite Hn2.
+    destruct (is_zero_opt (ed_prefix e) n) eqn:Ez.
+    + apply eqb_prop in Hu. rewrite Hu. cbn [map]. apply str_eqb_eq in Ez. rewrite Ez.
       unfold trim_prefix at 1. rewrite has_prefix_app, strip_prefix_app, (desc_plain_eq d Hd0).
       rewrite (read_numbered (ed_prefix e) r 1%Z Hr). reflexivity.
-    + assert (Hn : names_unspecified (ed_prefix e) n = false).
-      { unfold names_unspecified. apply orb_false_iff. split.
-        - destruct (str_eqb n unspecified) eqn:E; [|reflexivity]. apply str_eqb_eq in E. subst n.
-          rewrite has_suffix_refl in Es. discriminate.
-        - destruct (str_eqb n (ed_prefix e ++ unspecified)) eqn:E; [|reflexivity]. apply str_eqb_eq in E. subst n.
-          rewrite has_suffix_app in Es. discriminate. }
-      rewrite Hn. cbn [map]. unfold trim_prefix at 1. rewrite has_prefix_app, strip_prefix_app. cbn [clean_desc].
+    + apply eqb_prop in Hu. rewrite Hu. cbn [map]. unfold trim_prefix at 1. rewrite has_prefix_app, strip_prefix_app. cbn [clean_desc].
       assert (Hall : forallb (fun o => desc_plain (snd (fst o))) ((n, d, inf) :: r) = true)
         by (cbn [forallb snd fst]; rewrite Hd0, Hr; reflexivity).
       rewrite (read_numbered (ed_prefix e) ((n, d, inf) :: r) 1%Z Hall). reflexivity.
